@@ -30,7 +30,8 @@ def run_case(ctx, f, instance, names, pre, outcome):
     known = {"a": pa, "b": pb, "e": ev}
     cur = {"a": Obj("current_value_of_a"), "b": Obj("current_value_of_b"), "e": False}
     e_prev, w_prev, w_new, e_new = Obj("event_queued_before"), Obj("watcher_queued_before"), Obj("watcher_queued_by_trigger"), Obj("event_queued_by_trigger")
-    inst = Obj("instance", _param__private=Obj("private", initialized=True)) if instance else None
+    # the instance follows a dependency-free asynchronous reference: it has refs / async_refs entries but no source watchers
+    inst = Obj("instance", _param__private=Obj("private", initialized=True, ref_watchers=[], refs={"a": Obj("async_reference")}, async_refs={"a": Obj("pending_task")})) if instance else None
     ns = Obj("ns", self=inst, _TRIGGER=False, _BATCH_WATCH=outcome in ("queues", "raises-after-queueing"), _events=[e_prev] if pre else [], _state_watchers=[w_prev] if pre else [],
              __getitem__=dict(known), __contains__=list(known), __iter__=list(known))
     seen = {"updates": [], "syncing": []}
@@ -64,7 +65,7 @@ def run_case(ctx, f, instance, names, pre, outcome):
 
 def model(ctx):
     f = ctx.repo.func(P + "Parameters.trigger")
-    problems = {"C04": [], "C05": [], "C08": [], "C03": []}
+    problems = {"C04": [], "C05": [], "C08": [], "C03": [], "C10": []}
     n = 0
     for instance, names, pre, outcome in itertools.product([True, False], [("a",), ("e",), ("a", "e"), ("b", "a"), ("zzz",), ("a", "zzz")], [False, True],
                                                            ["dispatches", "queues", "raises", "raises-after-queueing"]):
@@ -105,6 +106,9 @@ def model(ctx):
                     desc, {k: getattr(v, "name", v) for k, v in g.items()}))
             if instance and not any(s[0] is inst and s[1] is not None and set(s[1]) >= set(names) and s[2] == 0 for s in seen["syncing"]):
                 problems["C08"].append("%s: the write-back is not inside a _syncing scope naming the triggered parameters (a linked parameter loses its link)" % desc)
+                problems["C10"].append("%s: the write-back is not inside a _syncing scope naming the triggered parameters: it is taken for an override, which cancels the pending asynchronous "
+                                       "evaluation and drops the reference -- the parameter never receives the result of the latest assignment (also for an object whose only "
+                                       "reference has no dependencies, hence no source watchers)" % desc)
             if bool(outcome.startswith("raises")) != (o.kind == "raise"):
                 problems["C05"].append("%s: outcome %s" % (desc, o.kind))
             queued = outcome in ("queues", "raises-after-queueing")
